@@ -27,7 +27,7 @@ NA = {
 CHECKS = {
  "C03": dict(
    category="fault_enumeration",
-   text="The command-line clause of C03 is what meets the outside world and is decided by fault simulation; the library-level clause is a pure function of the circuit (no schedule, fault or I/O in it) and is covered by a plain seeded sub-batch against the same reference simulator (see below and DESIGN.md §4 C03, §9.9). `quizx opt` is driven end to end on generated QASM files: in-process through -o, as the shipped binary on stdout, and as the shipped binary under injected input faults (missing file, directory, empty, torn at a statement boundary, torn mid token) and output faults (ENOSPC, torn write via RLIMIT_FSIZE, missing directory, directory target, stdout on /dev/full, broken pipe), and under a system-call seam (an LD_PRELOAD shim through which the decider makes the n-th open/read/write on the input file, the -o file or stdout transfer fewer bytes than asked, fail once with EINTR, or fail with EIO/ENOSPC/EDQUOT/EMFILE/EACCES/...). Fault-free runs must exit 0 with a program that parses back, keeps the qubit count, uses only h/rz/cz/cx/swap and is projectively equal to the input by the harness's gate-matrix simulator; under faults success is accepted only with a complete program equivalent to the program the tool actually saw. Sub-batch `lib`: circuit -> diagram in the vector or hash backend -> flow / Clifford / full simplification -> extractor in gflow single-solution-set, gflow simple-Gauss or (flow strategy) Gauss-free flow mode, with and without up_to_perm: extraction must succeed and be equivalent (up_to_perm: for some permutation of the input qubits, all n! tried).",
+   text="The command-line clause of C03 is what meets the outside world and is decided by fault simulation; the library-level clause is a pure function of the circuit (no schedule, fault or I/O in it) and is covered by a plain seeded sub-batch against the same reference simulator (see below and DESIGN.md §4 C03, §9.9). `quizx opt` is driven end to end on generated QASM files: in-process through -o, as the shipped binary on stdout, and as the shipped binary under injected input faults (missing file, directory, empty, torn at a statement boundary, torn mid token) and output faults (ENOSPC, torn write via RLIMIT_FSIZE, missing directory, directory target, stdout on /dev/full, broken pipe), and under a system-call seam (an LD_PRELOAD shim through which the decider makes the n-th open/read/write on the input file, the -o file or stdout transfer fewer bytes than asked, fail once with EINTR, or fail with EIO/ENOSPC/EDQUOT/EMFILE/EACCES/...). Fault-free runs must exit 0 with a program that parses back, keeps the qubit count, uses only h/rz/cz/cx/swap and is projectively equal to the input by the harness's gate-matrix simulator; under faults success is accepted only with a complete program equivalent to the program the tool actually saw. Sub-batch `lib`: circuit -> diagram in the vector or hash backend (before the Clifford and full strategies a quarter of the runs translate with local simplification after every gate, to_graph_with_options(true,false)) -> flow / Clifford / full simplification -> extractor in gflow single-solution-set, gflow simple-Gauss or (flow strategy) Gauss-free flow mode, with and without up_to_perm: extraction must succeed and be equivalent (up_to_perm: for some permutation of the input qubits, all n! tried).",
    design_ref="DESIGN.md §2.5, §4 C03, §9.9",
    note="Trusted: harness gate-matrix simulator and QASM printer/parser (self-tested), /dev/full, RLIMIT_FSIZE and pipe semantics. Bounds: <=5 qubits, <=30 gates, phase denominators <=16. The library-level sub-batch has no fault or schedule dimension (there is none in that code): it is seeded generation within <=6 qubits and <=70 gates, evidence rather than exploration of interleavings.",
    technique="fault injection around the real CLI (in-process and child process) with a gate-matrix reference simulator as oracle; seeded scenario generation, shrinking + replay files"),
